@@ -203,3 +203,15 @@ plan("C19", "other",
                  "authority configured: nobody is served); accepted callers are identified by the subject name of the verified certificate: client-test01 reaches Wallet 1 only, client-test02 "
                  "Wallet 2 only, the unpermitted client and a foreign peer nothing.",
      assumptions=["Go crypto/tls and x509 verification are trusted", "the host trust store is pointed (SSL_CERT_FILE) at a generated foreign authority to cover servers that fall back to system roots"])
+
+q, t = tiers(150, 90, 6000, 1500)
+q["require_probes"] = t["require_probes"] = ["canaries_served", "requests"]
+plan("C20", "exploration",
+     "one case = one generated request: structure-aware generation per RPC of Lister, Signer (5), AccountManager (3), WalletManager (2) and the five key-generation messages (from non-peers and "
+     "a peer), byte fields of length {0,1,3,4,31,32,33,47,48,49,96,4096} or absent, domains with a valid type prefix but wrong length, absent sub-messages and identifiers, extreme integers, "
+     "batches of 0/1/2/3/17/100/1000 (thorough: 10000) entries incl. nil entries, malformed/unknown/huge names and regexes, from clients {permitted, other permitted, unauthenticated, unknown, "
+     "a peer}; each request goes through a protobuf wire round trip and is followed by a canary request of another client. distinct = distinct (method, request) pair; non-trivial = all. "
+     "Oracle: every request gets a response or an error within 30 s, no panic on the handler goroutine, the worker process (= the instance) does not die (a panic on a scatter worker "
+     "goroutine kills it; the driver then replays the seed written ahead of the run in a fresh process), and the canary is served.",
+     q, t, real_vs_stub=REAL_W2 + " W6: no bubble, no scheduler; real goroutines.", crash_is_violation=True,
+     assumptions=["an input-space property: the technique contributes process isolation, the liveness canary and write-ahead replay, not schedules", "resource exhaustion is only reported if the process actually dies in this sandbox"])
